@@ -457,7 +457,7 @@ theorem parse_exprR (cap esc : Bool) (e : Expr) (hwf : e.WFR) :
 /-- the clusters handed to the trie: printable, consistent graphemes with one count each — with or without `-r` -/
 theorem all_clusters_lit (cfg : Config) (hmr : cfg.rep = true → 1 ≤ cfg.minRep) (env : Env) (ws : List Str)
     (hseg : ∀ w ∈ storedCases cfg env ws, SegOK env w)
-    (hlen : ∀ w ∈ storedCases cfg env ws, (subPieces (env.segOf w)).length ≤ 1000) :
+    (hlen : cfg.rep = true → ∀ w ∈ storedCases cfg env ws, (subPieces (env.segOf w)).length ≤ 1000) :
     ∀ cl ∈ graphemeClusters cfg env (sortCases (storedCases cfg env ws)), LitS cl ∧ ∀ g ∈ cl, g.min = g.max := by
   have hmem : ∀ w ∈ sortCases (storedCases cfg env ws), w ∈ storedCases cfg env ws := fun w hw => (sortCases_mem' _ w).mp hw
   cases hrep : cfg.rep with
@@ -468,7 +468,7 @@ theorem all_clusters_lit (cfg : Config) (hmr : cfg.rep = true → 1 ≤ cfg.minR
     obtain ⟨w, hw, rfl⟩ := hc
     have hww := hmem w hw
     obtain ⟨hceq, hvals⟩ := preCluster_vals cfg env w (hseg w hww)
-    have hl := hlen w hww
+    have hl := hlen hrep w hww
     rw [hceq]
     have hl' : (valsOf cfg env w).length ≤ 1000 := by simpa [valsOf] using hl
     refine ⟨convertRepetitions_lit cfg (hmr hrep) _ hvals hl', ?_⟩
@@ -492,7 +492,7 @@ theorem all_clusters_lit (cfg : Config) (hmr : cfg.rep = true → 1 ≤ cfg.minR
 
 theorem first_candidate_wfs (cfg : Config) (hmr : cfg.rep = true → 1 ≤ cfg.minRep) (env : Env) (ws : List Str)
     (hseg : ∀ w ∈ storedCases cfg env ws, SegOK env w)
-    (hlen : ∀ w ∈ storedCases cfg env ws, (subPieces (env.segOf w)).length ≤ 1000) (m : Dfa)
+    (hlen : cfg.rep = true → ∀ w ∈ storedCases cfg env ws, (subPieces (env.segOf w)).length ≤ 1000) (m : Dfa)
     (hm : Dfa.minimize (Dfa.trie (graphemeClusters cfg env (sortCases (storedCases cfg env ws)))) Dfa.pickMin = some m) :
     (Expr.ofDfa cfg m).WFS := by
   have hall := all_clusters_lit cfg hmr env ws hseg hlen
@@ -543,7 +543,7 @@ accepts it -/
 theorem verbose_unanchored_total (cfg : Config) (hsur : cfg.sur = false)
     (hmr : cfg.rep = true → 1 ≤ cfg.minRep) (env : Env) (ws : List Str)
     (hseg : ∀ w ∈ storedCases cfg env ws, SegOK env w)
-    (hlen : ∀ w ∈ storedCases cfg env ws, (subPieces (env.segOf w)).length ≤ 1000)
+    (hlen : cfg.rep = true → ∀ w ∈ storedCases cfg env ws, (subPieces (env.segOf w)).length ≤ 1000)
     (hvt : ∀ m, Dfa.minimize (Dfa.trie (graphemeClusters cfg env (sortCases (storedCases cfg env ws)))) Dfa.pickMin = some m →
       ∀ c ∈ fmtExpr (cfgPlain cfg.cap cfg.esc) (Expr.ofDfa cfg m), c ≠ 11 ∧ c ≠ 12) :
     ∃ st, regExpFrom cfg env ws = .ok st := by
